@@ -38,7 +38,15 @@ func GenKeys(t *rapid.T, min, max int, exotic bool) []string {
 		if exotic && rapid.IntRange(0, 2).Draw(t, "keyKind") > 0 {
 			switch rapid.IntRange(0, 9).Draw(t, "exoticKind") {
 			case 0:
-				k = strings.Repeat(rapid.SampledFrom([]string{"x", "é", "/", "😀"}).Draw(t, "rep"), rapid.OneOf(rapid.IntRange(256, 1024), rapid.SampledFrom([]int{4089, 4096, 5000, 20000, 60000, 60000, 1048600})).Draw(t, "replen"))
+				// a long key: 256 bytes ... 1 MiB (lengths are BYTES; the gRPC binding cannot carry a request
+				// above its 4 MiB message limit, so keys stay well below that - see DESIGN 10.2)
+				rep := rapid.SampledFrom([]string{"x", "é", "/", "😀"}).Draw(t, "rep")
+				n := rapid.OneOf(rapid.IntRange(256, 4096), rapid.SampledFrom([]int{4089, 4096, 5000, 20000, 60000, 60000, 1048600})).Draw(t, "replen")
+				cnt := n / len(rep)
+				if cnt < 1 {
+					cnt = 1
+				}
+				k = strings.Repeat(rep, cnt)
 			case 1:
 				k = rapid.StringN(1, 12, -1).Draw(t, "anyString") // any valid UTF-8
 			default:
